@@ -67,6 +67,11 @@ def cases(tier, seed):
                     if ncell <= (4 if tier == "quick" else 6) and (tier == "quick" or max(occ) <= 3):
                         yield dict(cv="shuffle", layout=[nbx, nby], occ=occ, spec="shape")
     yield dict(cv="badX", layout=[2, 2], occ=[1, 1, 1, 1], spec="shape")
+    # very uneven neighbouring block populations (one block eight times its neighbours): every order of (1,1,1,1,3,8) and every
+    # vector over {1, 8} on six blocks in a row (seed C11-13: split points nudged towards the ideal sum until two of them coincide)
+    uneven = sorted(set(itertools.permutations((1, 1, 1, 1, 3, 8)))) + list(itertools.product((1, 8), repeat=6))
+    for occ in uneven:
+        yield dict(cv="kfold", layout=[6, 1], occ=list(occ), spec="shape")
     # fine, sparsely occupied block grids: few points in many blocks, block ids spread over a wide range (seed C11-8: a membership
     # test that is only wrong once numpy takes its sorting path); the occupied cells follow two fixed arithmetic patterns
     for nb, (a, b), ncells in ((40, (7, 11), 46), (25, (3, 8), 30), (60, (13, 7), 35)):
@@ -89,7 +94,8 @@ def _points(layout, occ):
         if b == len(occ) - 1:
             k -= 1
         for j in range(k):
-            e.append(bx + 0.2 + 0.15 * j); n.append(by + 0.3 + 0.1 * j); lab.append(b)
+            step_e, step_n = min(0.15, 0.7 / max(c, 1)), min(0.1, 0.6 / max(c, 1))     # stay inside the cell for large populations
+            e.append(bx + 0.2 + step_e * j); n.append(by + 0.3 + step_n * j); lab.append(b)
         if b == len(occ) - 1:
             e.append(float(nbx)); n.append(float(nby)); lab.append(b)
     # interleave so that block membership is not contiguous in the index space
